@@ -70,6 +70,8 @@ func auditBase() *idl.Program {
 		{Service: &idl.Service{Name: "Plain", Methods: []*idl.Method{{Name: "noop"}, {Name: "count", Ret: T("i32")}, {Name: "tally", Ret: T("Counts"), Args: []*idl.Field{fld(1, "n", "default", T("Nums"))}}}}},
 		{Scope: &idl.Scope{Name: "Events", Prefix: "foo.{user}.bar", Ops: []*idl.Op{{Name: "Created", Type: T("Point")}, {Name: "Holding", Type: T("Holder")}}}},
 		{Scope: &idl.Scope{Name: "Audit", Prefix: "", Ops: []*idl.Op{{Name: "Logged", Type: T("base.Thing")}}}},
+		// a prefix whose variable names also occur as literal text (a whole segment, part of a segment)
+		{Scope: &idl.Scope{Name: "Named", Prefix: "v1.user.{user}.ids.{id}", Ops: []*idl.Op{{Name: "Seen", Type: T("Point")}}}},
 	}}
 	return &idl.Program{Files: []*idl.File{main, idl.BaseFile()}}
 }
@@ -546,10 +548,16 @@ func auditEdits(base *idl.Program) []edit {
 				{"token-added", d.Scope.Prefix + ".extra", "breaking"}, {"token-renamed", strings.Replace(d.Scope.Prefix+"x", "foo", "fooo", 1), "breaking"},
 				{"variable-renamed", strings.Replace(d.Scope.Prefix, "{user}", "{person}", 1), "compatible"},
 				{"variable-made-static", strings.Replace(d.Scope.Prefix, "{user}", "user", 1), "breaking"},
+				{"literal-and-variable-renamed", strings.Replace(strings.Replace(d.Scope.Prefix, "{user}", "{account}", 1), "user.", "account.", 1), "breaking"},
+				{"variable-renamed-to-a-literal-segment", strings.Replace(d.Scope.Prefix, "{id}", "{v1}", 1), "compatible"},
+				{"literal-renamed-to-the-variable-name", strings.Replace(d.Scope.Prefix, "ids.", "id.", 1), "breaking"},
 				{"prefix-removed", "", "breaking"}, {"prefix-added", "brand.new", "breaking"}} {
 				np := np
 				v := strings.TrimPrefix(np.v, ".")
-				if v == d.Scope.Prefix {
+				if strings.HasSuffix(v, "}x") {
+					v = strings.Replace(strings.TrimSuffix(v, "x"), "v1", "v2", 1) // no text may follow a variable inside a segment
+				}
+				if v == d.Scope.Prefix || (sc != "Named" && strings.Contains(np.n, "literal")) {
 					continue
 				}
 				out = append(out, edit{Name: "scope " + sc + "/prefix-" + np.n, Label: np.l, Apply: func(p *idl.Program) { findScope(p, sc).Prefix = v }})
